@@ -121,6 +121,7 @@ type VC struct {
 	dispatched map[string]bool
 	anchorHits map[string]int
 	loopDirect map[types.Object]bool // variables directly assigned in the loop being entered
+	pureAx     map[string]bool
 }
 
 func newVC(w *World, fi *FuncInfo, fc *FuncContract) *VC {
